@@ -19,7 +19,8 @@ import (
 // TraceReporter interface. It is the only way to read the allow-listed system/transient scopes
 // and the per-peer sub-scopes of services and protocols, which Stat() and View* do not expose
 // (the property lists trace events as an observation point). Every scope that Stat() does expose
-// is cross-checked against its shadow after every operation; a disagreement is harness trouble.
+// is cross-checked against its shadow after every operation; after a disagreement the hidden
+// scopes are not read any more in that run (see read).
 type shadow struct {
 	idx    map[string]int
 	val    [nFixed]vec
@@ -79,8 +80,13 @@ type world struct {
 	now time.Duration
 
 	nviol   int
+	nAudits int
+
+	shadowSuspect bool // the trace shadow disagreed with Stat() on a visible scope
 	changed int // operations that changed the ledger
 	refused int // operations refused for lack of room
+
+	activeClients int // stratum C: clients with at least one admitted operation
 	sig     strings.Builder
 }
 
@@ -151,7 +157,10 @@ func (w *world) viewStat(idx int) (vec, bool) {
 // read collects every reading the public API gives: Stat() for system, transient, services,
 // protocols and peers (a scope missing from a map reads zero), View* for the scopes in view,
 // the handles of connections, streams and spans, and the trace shadow for the hidden scopes.
-func (w *world) read(view []int, handles bool) readings {
+//
+// focus limits the handle readings to one holder's family (its root and everything below it);
+// nil reads every handle ever created, open or closed.
+func (w *world) read(view []int, focus *node) readings {
 	n := w.led.nScopes()
 	rd := readings{imp: make([]vec, n), have: make([]bool, n)}
 	st := w.st.Stat()
@@ -208,20 +217,35 @@ func (w *world) read(view []int, handles bool) readings {
 	// trace shadow: hidden scopes, and cross-check of the visible ones
 	for i := 0; i < nFixed; i++ {
 		if rd.have[i] {
-			if rd.imp[i] != w.sh.val[i] && w.o.Trouble == "" {
-				w.o.Trouble = fmt.Sprintf("trace shadow of %s = %v but Stat() = %v: the trace cannot be used as a reading", scopeLabel(i), w.sh.val[i], rd.imp[i])
+			// Stat() is authoritative where it exists. A shadow that disagrees with it (never seen on
+			// the unchanged tree; happens when an accounting defect changes a scope without emitting
+			// an event) means the hidden scopes cannot be read in this run any more: their readings
+			// are dropped from then on, discrepancies on the visible scopes are still reported.
+			if rd.imp[i] != w.sh.val[i] && !w.shadowSuspect {
+				w.shadowSuspect = true
+				w.o.Probe("trace-shadow-dropped")
+				w.o.Logf("    (trace shadow of %s = %v but Stat() = %v: hidden scopes are not read any more in this run)", scopeLabel(i), w.sh.val[i], rd.imp[i])
 			}
 			continue
 		}
-		rd.imp[i], rd.have[i] = w.sh.val[i], true
+		if !w.shadowSuspect {
+			rd.imp[i], rd.have[i] = w.sh.val[i], true
+		}
 	}
 	for _, i := range view {
 		if v, ok := w.viewStat(i); ok && v != rd.imp[i] {
 			w.violate("C03/stat-inconsistent/"+className(i), "View(%s).Stat() = %v but ResourceManagerState.Stat() = %v", scopeLabel(i), v, rd.imp[i])
 		}
 	}
-	if handles {
+	{
+		var fam *node
+		if focus != nil {
+			fam = root(focus)
+		}
 		for _, nd := range w.led.nodes {
+			if fam != nil && root(nd) != fam {
+				continue
+			}
 			switch nd.kind {
 			case kConn:
 				rd.imp[nd.sidx], rd.have[nd.sidx] = statVec(nd.conn.Stat()), true
@@ -291,6 +315,7 @@ type auditCtx struct {
 	reparent bool
 	final    bool
 	view     []int
+	focus    *node // the holder operated on (nil: none in particular)
 }
 
 // bounds: oracle (b) on the implementation's own readings, independent of the ledger.
@@ -333,12 +358,31 @@ func (w *world) report(ctx auditCtx, ds []diff) {
 }
 
 // audit = read everything, check bounds, compare with the ledger, report and absorb.
+//
+// Stat() (every system/transient/service/protocol/peer scope), the trace shadow (hidden scopes), the
+// View* reading of the scopes the operation touched and the handles of the holder family operated on
+// are read after every operation; the handles of all other holders (open or closed) after every 2nd
+// operation and at the end: each is one more lock acquisition = scheduling point, and they cannot
+// change without the operation touching them.
 func (w *world) audit(ctx auditCtx) readings {
-	rd := w.read(ctx.view, true)
+	rd := w.observe(&ctx)
 	w.bounds(rd, ctx.desc)
 	w.report(ctx, w.diffs(rd))
 	return rd
 }
+
+func (w *world) observe(ctx *auditCtx) readings {
+	w.nAudits++
+	if ctx.final || w.nAudits%2 == 0 {
+		return w.read(ctx.view, nil)
+	}
+	if ctx.focus == nil {
+		return w.read(ctx.view, noHolder) // the operation created or touched no holder
+	}
+	return w.read(ctx.view, ctx.focus)
+}
+
+var noHolder = &node{kind: kTop}
 
 // hypothesis: an alternative state of one node that would also be a legal (class "") or a known
 // illegal (class != "") answer of the implementation.
@@ -352,7 +396,7 @@ type hypothesis struct {
 // alternative; the first that matches is adopted. If none matches the primary expectation stands
 // and the discrepancy is reported by class.
 func (w *world) settle(ctx auditCtx, n *node, alts []hypothesis) readings {
-	rd := w.read(ctx.view, true)
+	rd := w.observe(&ctx)
 	w.bounds(rd, ctx.desc)
 	ds := w.diffs(rd)
 	if len(ds) == 0 {
